@@ -155,7 +155,7 @@ def main(tier, replay):
         ck.cov["traces_validated_against_impl"] += runsim.family(ck, "C05", rs)
         runsim.selftest(ck, rs)
         # ... and with a FREE environment: TLC chooses the flows of every hydraulic interval, i.e. every evolution of the level
-        runsim.free_environment(ck, "C05", rnd, 16 if tier == "quick" else 192, 3 if tier == "quick" else 4)
+        runsim.free_environment(ck, "C05", rnd, 16 if tier == "quick" else 128, 3 if tier == "quick" else 4)
     if replay and "runsim" in common.load_replay(replay)["detail"]:
         runsim.family(ck, "C05", [common.load_replay(replay)["detail"]["runsim"]])
         return ck.finish()
